@@ -841,6 +841,21 @@ func (c *e3) callees(info *types.Info, call *ast.CallExpr) []*types.Func {
 					out = append(out, m)
 				}
 			}
+			// a method called on a type parameter (generic helper): the constraint interface
+			// mentions the type parameter itself, so Implements cannot be asked; every module
+			// method of that name and shape is a possible callee
+			if len(out) == 0 {
+				if sel, ok := ast.Unparen(call.Fun).(*ast.SelectorExpr); ok {
+					if _, isTP := info.TypeOf(sel.X).(*types.TypeParam); isTP {
+						for _, m := range c.impls[f.Name()] {
+							ms := m.Type().(*types.Signature)
+							if ms.Params().Len() == sig.Params().Len() && ms.Results().Len() == sig.Results().Len() {
+								out = append(out, m)
+							}
+						}
+					}
+				}
+			}
 			return out
 		}
 	}
